@@ -344,6 +344,10 @@ pub fn run(report: &Report, budget: &Budget) {
         let on_terminal = |t: &Terminal, choices: &[usize], scratch: &Scratch| {
             let vs = race_oracle(&scn, t, scratch);
             report.outcome(format!("race:{:?}", t.results.iter().map(|r| r.class()).collect::<Vec<_>>()));
+            if t.preemptions >= 2 && choices.len() % 5 == 0 {
+                report.sample(json!({"scenario": scn.name, "explored_schedule": e3::schedule_string(choices, &["A", "B"]), "preemptions": t.preemptions,
+                    "outcome": t.results.iter().map(|r| r.class()).collect::<Vec<_>>()}));
+            }
             if !vs.is_empty() {
                 violating.fetch_add(1, Ordering::SeqCst);
                 let mut m = minp.lock().unwrap();
